@@ -30,7 +30,9 @@ Record shape := mkShape {
   sh_cerr : bool;     (* the registered constructor has an error result *)
   sh_perr : bool;     (* RFactory: the factory it returns has an error result *)
   sh_def : defkind;
-  sh_rt : rtype       (* result type of newPlugin / of the factory returned by newFactory *)
+  sh_rt : rtype;      (* result type of newPlugin / of the factory returned by newFactory *)
+  sh_named : bool     (* the function that may be handed out as it is (newPlugin / the factory
+                         newFactory returns) has a NAMED func type (type F func() P) *)
 }.
 
 Definition is_nocfg (k : cfgkind) : bool := match k with NoCfg => true | _ => false end.
@@ -171,11 +173,14 @@ Inductive factory :=
 | FFactoryWrap (n : nat) (a : carg).   (* MakeFunc around it *)
 Inductive created := CrOk (f : factory) | CrErr (e : err).
 
+(* identity of Go func types with the same signature: both unnamed, or the same named type *)
+Definition same_type_name (a b : bool) : bool := Bool.eqb a b.
+
 (* error result wanted by the requested factory type: func() (P, error) vs func() P *)
 Definition route (we : bool) (e : err) : outcome := if we then OErr e else OPanic e.
 
 (* Registry.NewFactory + implConstructor.NewFactory *)
-Definition reg_new_factory (sh : shape) (we hf : bool) (o : oracle) (s : st) : st * list event * created :=
+Definition reg_new_factory (sh : shape) (we named hf : bool) (o : oracle) (s : st) : st * list event * created :=
   let cr := negb (is_nocfg (sh_cfg sh)) in      (* defaultConfig.configRequired() *)
   (* registry.go: without config the fill is only checked once against an empty struct *)
   let '(s0, ev0, pre) :=
@@ -198,7 +203,7 @@ Definition reg_new_factory (sh : shape) (we hf : bool) (o : oracle) (s : st) : s
           | inl e => (s1, ev0 ++ ev1, CrErr e)
           | inr _ =>
               (* c.newPlugin.Type() == factoryType *)
-              if is_nocfg (sh_cfg sh) && is_iface (sh_rt sh) && Bool.eqb (sh_cerr sh) we
+              if is_nocfg (sh_cfg sh) && is_iface (sh_rt sh) && Bool.eqb (sh_cerr sh) we && same_type_name (sh_named sh) named
               then (s1, ev0 ++ ev1, CrOk FPluginDirect)
               else (s1, ev0 ++ ev1, CrOk (FPluginWrap cr))
           end
@@ -211,12 +216,19 @@ Definition reg_new_factory (sh : shape) (we hf : bool) (o : oracle) (s : st) : s
               | (s2, ev2, inl e) => (s2, ev0 ++ ev1 ++ ev2, CrErr e)
               | (s2, ev2, inr n) =>
                   (* factory.Type() == factoryType *)
-                  if is_iface (sh_rt sh) && Bool.eqb (sh_perr sh) we
+                  if is_iface (sh_rt sh) && Bool.eqb (sh_perr sh) we && same_type_name (sh_named sh) named
                   then (s2, ev0 ++ ev1 ++ ev2, CrOk (FFactoryDirect n a))
                   else (s2, ev0 ++ ev1 ++ ev2, CrOk (FFactoryWrap n a))
               end
           end
       end
+  end.
+
+(* is the dynamic type of the factory handed out a named func type? *)
+Definition factory_named (sh : shape) (named : bool) (f : factory) : bool :=
+  match f with
+  | FPluginDirect | FFactoryDirect _ _ => sh_named sh      (* the registered function itself *)
+  | FPluginWrap _ | FFactoryWrap _ _ => named              (* MakeFunc(factoryType, ...) *)
   end.
 
 (* one call of a produced factory *)
@@ -281,7 +293,9 @@ Definition expected_arg (sh : shape) (hf : bool) (o : oracle) (s : st) : carg :=
 
 (* ---------- cases and observations ---------- *)
 
-Inductive req := ReqNew | ReqFactory (we : bool).
+(* ReqFactory we named: requested factory type func() P / func() (P, error), unnamed or a named
+   func type with that signature *)
+Inductive req := ReqNew | ReqFactory (we : bool) (named : bool).
 Record case := mkCase { cs_shape : shape; cs_req : req; cs_hf : bool; cs_k : nat }.
 
 Inductive obs :=
@@ -293,8 +307,8 @@ Definition run_case_from (c : case) (o : oracle) (s : st) : obs :=
   if negb (reg_register (cs_shape c)) then ObsRegPanic
   else match cs_req c with
        | ReqNew => ObsNew (run_news (cs_shape c) (cs_hf c) o s (cs_k c))
-       | ReqFactory we =>
-           match reg_new_factory (cs_shape c) we (cs_hf c) o s with
+       | ReqFactory we named =>
+           match reg_new_factory (cs_shape c) we named (cs_hf c) o s with
            | (s1, ev, CrErr e) => ObsFactory ev (Some e) []
            | (s1, ev, CrOk f) => ObsFactory ev None (run_calls (cs_shape c) we (cs_hf c) o f s1 (cs_k c))
            end
@@ -364,7 +378,7 @@ Inductive nest_obs :=
 Definition run_nest (sh : shape) (rq : req) (o : oracle) (k : nat) : nest_obs :=
   match rq with
   | ReqNew => NestNew (run_re (reg_new_re sh o) st0 k)
-  | ReqFactory we =>
+  | ReqFactory we _ =>
       match get_conf_re sh o st0 with
       | (s1, ev1, inner, inl e) => NestFactory ev1 inner (Some e) []
       | (s1, ev1, inner, inr _) => NestFactory ev1 inner None (run_re (call_re sh we o) s1 k)
@@ -509,7 +523,7 @@ Definition errors_b (c : case) (o : oracle) (ob : obs) : bool :=
   match ob, cs_req c with
   | ObsRegPanic, _ => negb (reg_register sh)
   | ObsNew calls, ReqNew => reg_register sh && forallb (op_errors sh o true) calls
-  | ObsFactory cev cerr calls, ReqFactory we =>
+  | ObsFactory cev cerr calls, ReqFactory we _ =>
       reg_register sh && stops_at_error sh o cev &&
       match errors_evs sh o cev, cerr with
       | None, None => forallb (op_errors sh o we) calls
@@ -622,7 +636,7 @@ Definition reround_ok (sh : shape) (o : oracle) (we : bool) (r : reround) : bool
 Definition nest_b (sh : shape) (rq : req) (o : oracle) (ob : nest_obs) : bool :=
   match ob, rq with
   | NestNew rounds, ReqNew => forallb (reround_ok sh o true) rounds
-  | NestFactory cev cinner cerr rounds, ReqFactory we =>
+  | NestFactory cev cinner cerr rounds, ReqFactory we _ =>
       stops_at_error sh o cev && ctor_args_configured sh true o cev &&
       op_configured sh true o None cinner && op_errors sh o true cinner &&
       match errors_evs sh o cev, cerr with
